@@ -25,6 +25,26 @@ CLAIMED = {
          'Static absence check: behind the const API of compiled schemas, JSONPath/JMESPath expressions and basic_json there is no mutable field, no const_cast, no writable static handed out, no non-const call through a pointer member in a const method, and no per-call state stored in the artifact. This is the structural precondition of sharing an immutable artifact across threads; quantifies over all classes and functions of the artifact files and their instantiations.',
          'Decides absence of shared writable state; does not decide interleavings or equality of per-thread results. Table exemptions (exception what_ caches; JSONPath null_value static) are listed with reasons and a checked supporting fact.',
          'DESIGN.md §4 C20'),
+ 'C01': ('partial evaluation of the encoder escape function per character and comparison with the parser un-escape table; structural \\u/surrogate constants; data()/size() pairing lint; parser resume-state rule',
+         'Static table agreement and pairing rules: the encoder escape table (256 characters x escape_solidus, char and wchar_t) is the inverse of the RFC 8259 un-escape table the parser is verified against, control characters always leave through a four-digit \\u path with the standard surrogate split, no (pointer,length) pair mixes two objects, and the parser resumes string tokens where it left them. Necessary structural clauses of lossless round-trip.',
+         'Decides the escape/un-escape agreement and the listed pairing rules; does not decide byte-for-byte canonicity under all options, Grisu3/from_chars or the pretty-printer column arithmetic.',
+         'DESIGN.md §4 C01'),
+ 'C05': ('per-site safety obligations: bounded snprintf lengths (static bound or dominating upper-bound test), regex construction inside converting try/catch, clamped slice steps, value-set analysis of every __builtin_unreachable',
+         'Static per-site obligations over all of include/: every snprintf length is bounded by its buffer, every std::regex built from run-time text is inside a try that converts, every run-time-step slice loop clamps the step, and every __builtin_unreachable is unreachable for every value its discriminant can take (label completeness over the enum, callee return-value enumeration, assigned-value sets, or a table entry whose supporting facts are re-checked). Quantifies over code sites, not inputs.',
+         'Decides the listed obligations; does not decide termination, absence of all undefined behaviour or assertion freedom.',
+         'DESIGN.md §4 C05'),
+ 'C06': ('boundary-partition partial evaluation of encoder width ladders; decoding of the written header with the specification tables used for the decoders',
+         'Static ladder check: for every constant an encoder ladder variable is compared with, the points K-1, K, K+1 and the type extremes are partially evaluated; the marker/initial byte, payload conversion type and converted value written must decode (per the specification table the decoder is verified against in C07) to the same value or length, and every point must write a header or store an error. Covers MessagePack, CBOR and UBJSON integer and length ladders for every rung.',
+         'Decides exhaustiveness, non-truncation and marker/width agreement of the ladders; does not decide equality of decoded and original documents, bigint or decimal128 conversions.',
+         'DESIGN.md §4 C06'),
+ 'C09': ('tagged-union kind-set dataflow over the CFG of every basic_json member (cast typestate, unreachable exhaustiveness), compare() pair-matrix symmetry by partial evaluation, sort/unique discipline of sorted objects',
+         'Static typestate: at every cast<S_storage>() the object can only hold the kind S is constructed with (predicate truth tables computed from their bodies), every __builtin_unreachable default of a kind switch is unreachable, compare() treats every ordered kind pair symmetrically (14x14 cells x number-tag assignments), and sorted-object de-duplication is preceded by a stable sort. All member functions of all instantiations are analysed.',
+         'Decides the listed structural clauses; does not decide agreement with a reference model over operation sequences or as<T>() exactness.',
+         'DESIGN.md §4 C09'),
+ 'C19': ('exception-safety typestate over the CFG (destroyed -> re-initialised), dominance of the patch unwinder',
+         'Static typestate: between basic_json::destroy() and the re-initialisation of *this no call that may throw (callee not noexcept) is reachable; apply_patch constructs its automatic-storage unwinder before the first mutation. Quantifies over all paths through the functions, i.e. every allocation point between the two events.',
+         'Decides the listed clauses; does not decide that rollback itself cannot fail, nor byte balance of allocate/deallocate.',
+         'DESIGN.md §4 C19'),
 }
 NOT_YET = 'check under construction in this session; no structural rule registered yet'
 NA = {}
